@@ -67,19 +67,20 @@ impl SocketSend for ReqSocket {
                 .await;
             if let Some(peer) = peer {
                 message.push_front(Bytes::new());
-                let sent = peer
-                    .io
-                    .lock()
-                    .await
-                    .send_queue
-                    .send(Message::Message(message))
-                    .await;
+                let mut io = peer.io.lock().await;
+                // The request is outstanding from the moment it starts to be written, not only
+                // once it is written: if this call is abandoned while the transport takes the
+                // request, the request is on its way all the same (`recv` writes the rest of
+                // it), and a second request must not follow it.
+                self.current_request = Some((next_peer_id.clone(), peer.conn));
+                let sent = io.send_queue.send(Message::Message(message)).await;
+                drop(io);
                 if let Err(e) = sent {
+                    self.current_request = None;
                     self.backend.forget_conn(&next_peer_id, peer.conn);
                     return Err(e.into());
                 }
                 self.backend.round_robin.served(&next_peer_id);
-                self.current_request = Some((next_peer_id, peer.conn));
                 return Ok(());
             }
             self.backend.round_robin.leave(&next_peer_id);
@@ -102,7 +103,13 @@ impl SocketRecv for ReqSocket {
                     // (the reply comes on the connection the request went out on, or not at all)
                     .filter(|peer| peer.conn == conn);
                 if let Some(peer) = peer {
-                    let received = peer.io.lock().await.recv_queue.next().await;
+                    let mut io = peer.io.lock().await;
+                    // (what an abandoned `send` left of the request in the buffer goes out first)
+                    let received = match io.send_queue.flush().await {
+                        Ok(()) => io.recv_queue.next().await,
+                        Err(e) => Some(Err(e)),
+                    };
+                    drop(io);
                     self.current_request = None;
                     if !matches!(received, Some(Ok(_))) {
                         // The connection ended or failed: forget it
